@@ -225,7 +225,7 @@ def check_verdict(case, ctx):
     x = build_stacked(case)
     m = obj.get("m")
     c_sys = build.c_sys_for(shape)
-    q = build.make(c_sys, t, x, m=m)
+    q = build.make(c_sys, t, x, m=m, mshape=obj.get("mshape"))
     eq_lo, eq_hi, in_lo, in_hi, boundary = defects(t, basis, x, m)
     a_eq, a_in = case["atol_eq"], case["atol_ineq"]
     ctx.label(t, shape, "defect:" + case["defect"]["kind"], "kind:" + obj.get("kind", "generic"))
@@ -347,13 +347,13 @@ def check_constructor(case, ctx):
     try:
         ok, err = True, None
         try:
-            q = build.make(c_sys, t, x, m=m, is_physicality_required=True)
+            q = build.make(c_sys, t, x, m=m, mshape=obj.get("mshape"), is_physicality_required=True)
         except ValueError as e:
             ok, err = False, e
         ctx.check(ok == exp, f"constructor:{t}",
                   f"constructor {'succeeded' if ok else 'raised ' + str(err)[:80]} but eq defect {eq_hi:.3e} ineq defect {in_hi:.3e} atol {atol:.3e}")
         # generate_from_var path
-        tmpl = build.make(c_sys, t, x, m=m, is_physicality_required=False, on_para_eq_constraint=False)
+        tmpl = build.make(c_sys, t, x, m=m, mshape=obj.get("mshape"), is_physicality_required=False, on_para_eq_constraint=False)
         var = tmpl.to_var()
         ok2 = True
         try:
@@ -375,7 +375,7 @@ def check_relative_slack(case, ctx):
     x = build_stacked(case)
     m = obj.get("m")
     c_sys = build.c_sys_for(shape)
-    q = build.make(c_sys, t, x, m=m)
+    q = build.make(c_sys, t, x, m=m, mshape=obj.get("mshape"))
     eq_lo, eq_hi, _, _, _ = defects(t, basis, x, m)
     atol = case["atol_eq"]
     ctx.label(t, shape)
@@ -408,7 +408,7 @@ def check_origin_zero(case, ctx):
     m = obj.get("m")
     c_sys = build.c_sys_for(shape)
     flag = case["flag"]
-    q = build.make(c_sys, t, x, m=m, on_para_eq_constraint=flag)
+    q = build.make(c_sys, t, x, m=m, mshape=obj.get("mshape"), on_para_eq_constraint=flag)
     ctx.label(t, shape, f"flag:{flag}")
     o = q.generate_origin_obj()
     z = q.generate_zero_obj()
@@ -432,12 +432,12 @@ def check_origin_zero(case, ctx):
     ctx.check(eq_hi <= 1e-13 and in_hi <= 1e-13, f"origin_physical_ref:{t}", f"{eq_hi} {in_hi}")
     # the in-place variant: after set_zero() the SAME object (already queried above and here) denotes the zero operator,
     # and every verdict is about the zero operator, exactly as for a fresh object built from zeros
-    q2 = build.make(c_sys, t, x, m=m, on_para_eq_constraint=flag)
+    q2 = build.make(c_sys, t, x, m=m, mshape=obj.get("mshape"), on_para_eq_constraint=flag)
     before = (q2.is_eq_constraint_satisfied(), q2.is_ineq_constraint_satisfied(), q2.is_physical())
     _representations(q2, t)  # every derived representation has been asked for once before the object is reset
     q2.set_zero()
     ctx.close(build.stacked_of(q2), np.zeros_like(x), 0.0, f"set_zero_value:{t}")
-    fresh_zero = build.make(c_sys, t, np.zeros_like(x), m=m, on_para_eq_constraint=flag)
+    fresh_zero = build.make(c_sys, t, np.zeros_like(x), m=m, mshape=obj.get("mshape"), on_para_eq_constraint=flag)
     reps_used, reps_fresh = _representations(q2, t), _representations(fresh_zero, t)
     for nm in reps_fresh:
         a_used, a_fresh = reps_used.get(nm), reps_fresh[nm]
@@ -523,7 +523,7 @@ def check_generic_basis(case, ctx):
         hs_n = x_n.reshape(n, n)
         hs = rm.hs_from_map(qb, lambda a: rm.apply_hs(nb, hs_n, a), orthonormal)
         x = np.real(hs).reshape(-1)
-    q = build.make(c_sys, t, x, m=m)
+    q = build.make(c_sys, t, x, m=m, mshape=obj.get("mshape"))
     # defects do not depend on the coordinate system: use the normalised representation,
     # except that the TP verdict of the generic branch is the trace test
     eq_lo, eq_hi, in_lo, in_hi, boundary = defects(t, nb, x_n, m)
